@@ -369,7 +369,7 @@ def pred_c09(line, st):
 
 # ---------------------------------------------------------------------------- C03 / C04 / C05
 VERIFY_OPS = ("zk.nizk.verify", "zk.cp.verify", "zk.mask.verify", "zk.remask.verify", "zk.dec.verify",
-              "zk.or.verify", "zk.key.final", "zk.se.verify")
+              "zk.or.verify", "zk.key.final", "zk.se.verify", "zk.keypc.verify")
 
 
 def se_bits(a):
@@ -382,6 +382,9 @@ def pred_c03(line, st):
     if op in VERIFY_OPS and tag_of(a) == "honest":
         if not r or r[0] != "1":
             return "honest proof rejected (%s)" % (r[0] if r else "?")
+    if op == "zk.keypc.prove" and tag_of(a) == "honest":
+        if not r or r[0] != "1":
+            return "honest public-coin prover gave up (%s) although the verifier followed the protocol" % (r[0] if r else "?")
     if op == "zk.key.respond" and tag_of(a) == "honest":
         q, c = int(a[1]), int(a[5])
         if abs(c) < q and (not r or r[0] == "refuse"):
